@@ -237,6 +237,29 @@ func zooMakers() []zooMaker {
 			return b
 		}
 	}
+	// every field id repeated within one document somewhere (per-document "seen" sets indexed by field id)
+	wideRepeat := func(nf int) func() []model.Doc {
+		return func() []model.Doc {
+			var b []model.Doc
+			for d := 0; d < 3; d++ {
+				doc := model.Doc{gen.IDField("r", d)}
+				for f := 0; f < nf; f++ {
+					name := fmt.Sprintf("f%03d", f)
+					doc = append(doc, model.Field{N: name, Len: 1, Terms: []model.Term{{T: fmt.Sprintf("t%d", f%5), Freq: 1}}, DV: f%16 == 0})
+					if f%2 == d {
+						doc = append(doc, model.Field{N: name, Len: 2, Terms: []model.Term{{T: "again", Freq: 1}, {T: fmt.Sprintf("t%d", f%5), Freq: 1}}, DV: f%16 == 0})
+					}
+					if f%64 == 63 && d == 2 {
+						doc = append(doc, model.Field{N: name, Len: 1, Terms: []model.Term{{T: "third", Freq: 1}}, DV: f%16 == 0}, model.Field{N: name, Len: 1, Terms: []model.Term{{T: "third", Freq: 1}}, DV: f%16 == 0})
+					}
+				}
+				b = append(b, doc)
+			}
+			return b
+		}
+	}
+	out = append(out, zooBuilt("wide-repeat-140", false, wideRepeat(140)))
+	out = append(out, zooMerged("wide-repeat-70+partner", false, 0, [][]uint32{{1}, nil}, wideRepeat(70), partner))
 	out = append(out, zooBuilt("wide-300", false, wide(300, true)))
 	out = append(out, zooMerged("wide-140+partner", false, 0, [][]uint32{{0}, nil}, wide(140, false), partner))
 	out = append(out, zooMerged("wide-16400+partner", true, 0, [][]uint32{nil, {1}}, wide(16400, false), partner))
